@@ -255,7 +255,7 @@ func runC17(c *Ctx) {
 	if vp := p.Func("private/bufpkg/bufprotoplugin", "ValidatePluginResponses"); vp != nil {
 		vinfo := vp.Info()
 		okErr, okKey := false, false
-		ast.Inspect(vp.Decl.Body, func(n ast.Node) bool {
+		deepInspect(p, vp, 2, func(n ast.Node, _ *types.Info) bool {
 			switch x := n.(type) {
 			case *ast.IfStmt:
 				if as, ok := x.Init.(*ast.AssignStmt); ok && len(as.Rhs) == 1 {
@@ -315,7 +315,13 @@ func runC17(c *Ctx) {
 				return out && name
 			}
 			lookups, updates, okAll := 0, 0, true
-			for _, b := range vsf.Blocks {
+			var vblocks []*ssa.BasicBlock
+			for _, f := range reachSSA(vsf, 2) {
+				if f.Pkg == vsf.Pkg {
+					vblocks = append(vblocks, f.Blocks...)
+				}
+			}
+			for _, b := range vblocks {
 				for _, ins := range b.Instrs {
 					switch x := ins.(type) {
 					case *ssa.Lookup:
@@ -488,6 +494,11 @@ func c17InsertionPredicate(c *Ctx) {
 			})
 			if mentions {
 				norm := strings.ReplaceAll(exprString(ifs.Cond), recv, "FILE")
+				// `X == ""` (process the file when it is NOT an insertion) and `X != ""` (skip it when it is) are the
+				// same predicate read from the other side
+				if be, ok := ast.Unparen(ifs.Cond).(*ast.BinaryExpr); ok && (be.Op == token.EQL || be.Op == token.NEQ) {
+					norm = strings.ReplaceAll(exprString(be.X), recv, "FILE") + " <cmp> " + strings.ReplaceAll(exprString(be.Y), recv, "FILE")
+				}
 				preds[norm] = append(preds[norm], fr.Decl.Name.Name)
 			}
 			return true
@@ -630,7 +641,19 @@ func c17GenerateTable(c *Ctx) {
 			}
 			return "", false
 		}
+		// set-membership helpers of the package (`pathSetContains(set, path)`) are evaluated through their bodies
+		bfInline = func(call *ast.CallExpr) (*ast.FuncDecl, *types.Info) {
+			fn := Callee(info, call)
+			if fn == nil || fn.Pkg() == nil || fn.Pkg() != fr.Pkg.Types {
+				return nil, nil
+			}
+			if d := p.DeclOf(fn); d != nil && d.Decl.Body != nil {
+				return d.Decl, d.Info()
+			}
+			return nil, nil
+		}
 		out := bfEvalFunc(info, fr.Decl.Body, atom, lookup, store)
+		bfInline = nil
 		if out.Undecided != "" {
 			bad = fmt.Sprintf("undecided for %+v: %s", v, out.Undecided)
 			break
@@ -725,40 +748,48 @@ func c17ProtoFileTotal(c *Ctx) {
 		if !ok {
 			return true
 		}
-		// the loop that stores into ProtoFile
-		var store ast.Stmt
+		// the loop that stores into ProtoFile: collect every store in its body (one per branch is fine)
+		var stores []ast.Node
 		indexed := false
-		for _, st := range rs.Body.List {
-			as, ok := st.(*ast.AssignStmt)
+		badIndex := ""
+		inspectNoFuncLit(rs.Body, func(m ast.Node) bool {
+			as, ok := m.(*ast.AssignStmt)
 			if !ok || len(as.Lhs) != 1 || len(as.Rhs) != 1 {
-				continue
+				return true
 			}
 			if ix, ok := ast.Unparen(as.Lhs[0]).(*ast.IndexExpr); ok && isProtoFileField(ix.X) {
-				store, indexed = st, true
+				stores, indexed = append(stores, as), true
 				if rs.Key == nil || identObj(info, ix.Index) == nil || identObj(info, ix.Index) != identObj(info, rs.Key) {
-					c.Ob(rule, "store-at-range-key", as.Pos(), false, true, "ProtoFile is indexed by %s, which is not the key of the loop over the image files", exprString(ix.Index))
-					found = true
-					return false
+					badIndex = exprString(ix.Index)
 				}
 			}
 			if isProtoFileField(as.Lhs[0]) {
 				if call, ok := ast.Unparen(as.Rhs[0]).(*ast.CallExpr); ok && len(call.Args) >= 2 && exprString(call.Fun) == "append" && isProtoFileField(call.Args[0]) {
-					store = st
+					stores = append(stores, as)
 				}
-			}
-		}
-		if store == nil {
-			return true
-		}
-		found = true
-		skips := 0
-		inspectNoFuncLit(rs.Body, func(m ast.Node) bool {
-			if b, ok := m.(*ast.BranchStmt); ok && (b.Tok == token.CONTINUE || b.Tok == token.BREAK || b.Tok == token.GOTO) {
-				skips++
 			}
 			return true
 		})
-		c.Ob(rule, "store-on-every-iteration", store.Pos(), skips == 0, true, "the ProtoFile store is a top-level statement of the loop over the image files and the loop has %d continue/break statements", skips)
+		if len(stores) == 0 {
+			return true
+		}
+		found = true
+		if badIndex != "" {
+			c.Ob(rule, "store-at-range-key", stores[0].Pos(), false, true, "ProtoFile is indexed by %s, which is not the key of the loop over the image files", badIndex)
+			return false
+		}
+		store := stores[0]
+		// every iteration stores: from the start of the loop body no successful exit of the function (that is: no way
+		// on to the next iteration and out of the loop) is reachable without passing one of the stores
+		g := p.CFGOf(fr.Decl.Body, info)
+		skipped := false
+		if len(rs.Body.List) > 0 {
+			skipped, _ = g.ExitReachableAvoiding(rs.Body.List[0], stores, func(r *ast.ReturnStmt) bool { return classifyReturn(info, r) == retNonNil })
+			if containsAny(rs.Body.List[0], stores) {
+				skipped = false
+			}
+		}
+		c.Ob(rule, "store-on-every-iteration", store.Pos(), !skipped, true, "every iteration of the loop over the image files passes one of its %d ProtoFile store(s): %v", len(stores), !skipped)
 		if indexed {
 			// the slice was made with one slot per ranged element
 			sized := false
@@ -783,4 +814,13 @@ func c17ProtoFileTotal(c *Ctx) {
 	if !found {
 		c.Fail(rule, "store", fr.Decl.Pos(), "no loop storing into ProtoFile found in %s", fr.Decl.Name.Name)
 	}
+}
+
+func containsAny(n ast.Node, targets []ast.Node) bool {
+	for _, t := range targets {
+		if containsNode(n, t) {
+			return true
+		}
+	}
+	return false
 }
